@@ -287,6 +287,11 @@ func (x *Exec) merge(a, b *State) *State {
 	for fk < len(a.facts) && fk < len(b.facts) && a.facts[fk].S == b.facts[fk].S {
 		fk++
 	}
+	if ca.IsC && ca.C != 0 && cb.IsC && cb.C != 0 && (len(a.facts) > fk || len(b.facts) > fk) {
+		// two different states that no path decision tells apart: merging them would
+		// assert the facts of both
+		unsup("merge of states that differ only in quantified facts")
+	}
 	n.facts = append([]Term(nil), a.facts[:fk]...)
 	for _, f := range a.facts[fk:] {
 		n.facts = append(n.facts, Implies(ca, f))
@@ -458,7 +463,7 @@ func (x *Exec) stmt(s *State, fr *Frame, st ast.Stmt) (out *State) {
 				return nil
 			}
 		}
-		c := x.cond(s, fr, n.Cond)
+		c := x.branchCond(s, fr, n.Cond)
 		if s.infeasible() {
 			return nil
 		}
@@ -1054,7 +1059,7 @@ func (x *Exec) switchStmt(s *State, fr *Frame, n *ast.SwitchStmt, label string) 
 				v = x.convertTo(rest, fr, v, fr.info.TypeOf(e), tagT)
 				conds = append(conds, valueEq(x, tagT, tag, v))
 			} else {
-				conds = append(conds, x.cond(rest, fr, e))
+				conds = append(conds, x.branchCond(rest, fr, e))
 			}
 		}
 		c := x.ctx.Share(Or(conds...))
@@ -1114,7 +1119,7 @@ func (x *Exec) forStmt(s *State, fr *Frame, n *ast.ForStmt, label string) *State
 		if n.Cond == nil {
 			return True
 		}
-		return x.cond(st, fr, n.Cond)
+		return x.branchCond(st, fr, n.Cond)
 	}
 	postFn := func(st *State) *State {
 		if n.Post == nil {
